@@ -552,6 +552,36 @@ pub fn inject_which(ch: &mut Choices, doc: &mut MOpDoc, s: &Schema, which: usize
             if n == 0 {
                 return None;
             }
+            // a field that exists - on the enclosing object type, but not on the interface an inline fragment narrows
+            // (widens) to: `me { ... on Node { name } }` where only User has `name`
+            let narrowing = |site: &Site| -> Option<(String, String)> {
+                let t = s.types.get(&site.parent)?;
+                if t.kind != Kind::Object {
+                    return None;
+                }
+                for i in &t.implements {
+                    let it = s.types.get(i)?;
+                    if let Some(f) = t.fields.iter().find(|f| !it.fields.iter().any(|g| g.name == f.name) && s.is_leaf(f.ty.base()) && !f.args.iter().any(|a| a.ty.is_non_null() && a.default.is_none())) {
+                        return Some((i.clone(), f.name.clone()));
+                    }
+                }
+                None
+            };
+            let pred_n = |_: &Vec<MSelection>, site: &Site| narrowing(site).is_some();
+            let nn = count_sites(doc, s, &pred_n);
+            if nn > 0 && ch.chance(1, 3) {
+                let k = ch.below(nn);
+                let class = mutate_site(doc, s, k, &pred_n, &mut |sels, site| {
+                    let (iface, field) = narrowing(site).unwrap();
+                    let mut f = match plain_field(&field) {
+                        MSelection::Field(f) => f,
+                        _ => unreachable!(),
+                    };
+                    f.alias = Some("only_on_the_object".into());
+                    sels.push(MSelection::Inline { on: Some(iface), directives: vec![], sel: vec![MSelection::Field(f)] });
+                })?;
+                return Some(Fault { label: "field-not-found", class: format!("object-field-under-interface-condition/{class}"), detail: "field of the enclosing object selected under an inline fragment on an interface that lacks it" });
+            }
             let k = ch.below(n);
             let mut detail = "unknown field on object/interface";
             let class = mutate_site(doc, s, k, &any_site, &mut |sels, site| {
